@@ -732,6 +732,18 @@ func (v *Verifier) genVectors(o *Oblig, keys []string, n int, seed int64) []map[
 	interesting := []*big.Int{bi(0), bi(1), bi(2), new(big.Int).Sub(P, bi(1)), new(big.Int).Sub(N, bi(1)), new(big.Int).Sub(N, bi(2)),
 		pow2(255), pow2(128), pow2(64), new(big.Int).Mod(bigR, P), new(big.Int).Mod(bigR, N), new(big.Int).Sub(pow2(256), bi(1)), N, P,
 		new(big.Int).Mod(new(big.Int).Mul(bigR, bigR), N), modInverse(bigR, N), modInverse(bigR, P)}
+	{
+		// the exceptional inputs of the simplified SWU map (Z*u^2 == -1 with Z = -11, i.e. u = +-sqrt(1/11)), plain and in
+		// Montgomery form; p = 3 mod 4, so a square root is a (p+1)/4-th power
+		inv11 := modInverse(bi(11), P)
+		r := new(big.Int).Exp(inv11, new(big.Int).Rsh(new(big.Int).Add(P, bi(1)), 2), P)
+		if new(big.Int).Mod(new(big.Int).Mul(new(big.Int).Mul(r, r), bi(11)), P).Cmp(bi(1)) == 0 {
+			nr := new(big.Int).Sub(P, r)
+			for _, x := range []*big.Int{r, nr} {
+				interesting = append(interesting, x, new(big.Int).Mod(new(big.Int).Mul(x, bigR), P))
+			}
+		}
+	}
 	// group keys into 4-limb numbers
 	groups := map[string][]string{}
 	for _, k := range keys {
@@ -795,9 +807,31 @@ func (v *Verifier) genVectors(o *Oblig, keys []string, n int, seed int64) []map[
 		for g, ks := range groups {
 			if len(ks) == 4 && rng.Intn(2) == 0 {
 				var val *big.Int
-				if rng.Intn(2) == 0 {
+				switch rng.Intn(4) {
+				case 0:
 					val = interesting[rng.Intn(len(interesting))]
-				} else {
+				case 1:
+					// the Montgomery form of an interesting value (so that the canonical value is the structured one),
+					// or of a value with whole limbs zero / all ones
+					m := []*big.Int{N, P}[rng.Intn(2)]
+					v := interesting[rng.Intn(len(interesting))]
+					if rng.Intn(2) == 0 {
+						v = new(big.Int)
+						for i := 0; i < 4; i++ {
+							var limb *big.Int
+							switch rng.Intn(3) {
+							case 0:
+								limb = bi(0)
+							case 1:
+								limb = new(big.Int).Sub(pow2(64), bi(1))
+							default:
+								limb = new(big.Int).SetUint64(rng.Uint64())
+							}
+							v.Add(v, new(big.Int).Lsh(limb, uint(64*i)))
+						}
+					}
+					val = new(big.Int).Mod(new(big.Int).Mul(new(big.Int).Mod(v, m), bigR), m)
+				default:
 					val = new(big.Int).Rand(rng, N)
 				}
 				for i := 0; i < 4; i++ {
